@@ -8,12 +8,14 @@
 #define CNL_IMPL_ELASTIC_INTEGER_OPERATORS_H
 
 #include "../config.h"
+#include "../num_traits/rep_of.h"
 #include "../num_traits/to_rep.h"
 #include "definition.h"
 
 #if defined(CNL_IOSTREAMS_ENABLED)
 #include <ostream>
 #endif
+#include <type_traits>
 
 /// compositional numeric library
 namespace cnl {
@@ -21,7 +23,13 @@ namespace cnl {
     template<int Digits, class Narrowest>
     auto& operator<<(std::ostream& o, elastic_integer<Digits, Narrowest> const& i)
     {
-        return o << _impl::to_rep(i);
+        using rep = _impl::rep_of_t<elastic_integer<Digits, Narrowest>>;
+        if constexpr (std::is_integral_v<rep> && sizeof(rep) == 1) {
+            // a number whose representation is a character type is still a number
+            return o << static_cast<int>(_impl::to_rep(i));
+        } else {
+            return o << _impl::to_rep(i);
+        }
     }
 #endif
 }
